@@ -17,13 +17,13 @@ from .. import gen
 ID = "C04"
 RULE = ("edge lists produced by gcmpy's own fast and custom generators on random handshake-consistent jds (N 1..40, every 8th case up "
         "to 200; zero-degree vertices incl. vertex 0 and vertex N-1 in ~40%; all stubs on one vertex => self-loops and repeated pairs), "
-        "plus all-zero jds and single-vertex jds; each is converted to a network, back, and forth again; non-trivial = (a zero-degree "
+        "plus all-zero jds, single-vertex jds, size-1 motifs without edges and sequences with leftover stubs (a vertex that owns stubs but receives no edge); each is converted to a network, back, and forth again; non-trivial = (a zero-degree "
         "vertex or a repeated pair or a self-loop) and >= 2 edges; distinct = SHA-1 of the concrete edge list")
 ASSUMPTIONS = ["nothing is demanded about which row wins for a repeated pair", "names/ids compared by equality"]
 HEADLINE = ["edge_lists", "forward_conversions", "reverse_conversions", "round_trips", "with_zero_degree", "with_repeated_pair", "with_self_loop",
-            "all_zero_jds", "single_vertex", "unique_pair_attrs_checked", "exact_round_trip_checked", "input_graph_mutation_events"]
+            "all_zero_jds", "single_vertex", "vertex_with_stubs_but_no_edge", "leftover_stub_sequences", "unique_pair_attrs_checked", "exact_round_trip_checked", "input_graph_mutation_events"]
 REQUIRED = {t: {"with_zero_degree": 30, "with_repeated_pair": 30, "with_self_loop": 20, "all_zero_jds": 2, "single_vertex": 2,
-                "exact_round_trip_checked": 20, "unique_pair_attrs_checked": 500} for t in ("quick", "thorough")}
+                "exact_round_trip_checked": 20, "unique_pair_attrs_checked": 500, "vertex_with_stubs_but_no_edge": 10} for t in ("quick", "thorough")}
 
 
 def gen_cases(tier, seed):
@@ -41,11 +41,21 @@ def make_edge_list(rng, res, nmax):
         jds = [tuple([0] * len(cfg["motifs"])) for _ in range(N)]
         res.count("all_zero_jds")
     else:
-        cfg = gen.make_custom_config(rng) if rng.random() < 0.35 else gen.make_fast_config(rng)
+        cfg = gen.make_custom_config(rng) if rng.random() < 0.35 else gen.make_fast_config(rng, allow_empty=True)
         if cfg["flavour"] == "network":
             cfg["flavour"] = "fast"
         sparse = rng.random() < 0.45
         jds, _ = gen.make_jds(rng, cfg, nmax=1 if special < 0.06 else (max(nmax, 120) if sparse else nmax), sparse=sparse)
+        if cfg["flavour"] == "fast" and rng.random() < 0.2 and all(m[0] in ("clique", "path", "star", "empty") for m in cfg["motifs"]):
+            # leftover stubs: a hand-supplied sequence whose stub total is not a multiple of the motif size is accepted silently (short last
+            # group), so the generator can emit an edge list in which a vertex owns stubs but no edge
+            jl = [list(x) for x in jds]
+            for c, m in enumerate(cfg["motifs"]):
+                if m[1] > 1:
+                    for _ in range(rng.randint(1, m[1] - 1)):
+                        jl[rng.randrange(len(jl))][c] += 1
+            jds = [tuple(x) for x in jl]
+            res.count("leftover_stub_sequences")
     cfg["path"] = "direct"
     if len(jds) == 1:
         res.count("single_vertex")
@@ -114,6 +124,9 @@ def run_case(case):
     zero = any(sum(jd) == 0 for jd in jds)
     rep = any(c > 1 for c in pairs.values())
     loop = any(a == b for a, b in pairs)
+    touched = {v for e in cols0[0] for v in e}
+    stubs_no_edge = any(sum(jd) > 0 and v not in touched for v, jd in enumerate(jds))
+    if stubs_no_edge: res.count("vertex_with_stubs_but_no_edge")
     if zero: res.count("with_zero_degree")
     if rep: res.count("with_repeated_pair")
     if loop: res.count("with_self_loop")
